@@ -99,6 +99,14 @@ def reset_caches() -> None:
     AttributeCollection.previous = b''
 
 
+def fresh_attribute_stores() -> None:
+    """The per-attribute stores (`Attribute.cache`, created by `Attribute.setCache()` when the daemon starts with
+    exabgp.cache.attributes) as a process that has decoded nothing has them."""
+    if Attribute.cache:
+        for code in list(Attribute.cache):
+            Attribute.cache[code] = type(Attribute.cache[code])()
+
+
 # ---------------------------------------------------------------------------------------------
 # canonical error names
 
@@ -455,6 +463,35 @@ def attr_laws(a: Attribute, asn4: bool = True) -> tuple[list[LawFail], dict]:
         fails.append(LawFail('pack(unpack(b))-raises', err_name(e), b))
     if type(y) is not type(a):
         facts['class-change'] = f'{klass_name(a)} -> {klass_name(y)}'
+    if not fails:
+        # ... and what was decoded BEFORE must not matter either: a twin of these bytes (one of the two top bits of one of
+        # the first value octets the other way round: another type, another transitivity, another sign) is decoded and
+        # rendered first, then these bytes again — they read as they do in a fresh process
+        hdr = 4 if b[0] & 0x10 else 3
+        for pos in range(hdr, min(hdr + 4, len(b))):
+            for bit in (0x80, 0x40):
+                tb = bytearray(b)
+                tb[pos] ^= bit
+                reset_caches()
+                fresh_attribute_stores()
+                try:
+                    ct = decode_attr_block(bytes(tb), neg)
+                    if code in ct:
+                        render_attr(ct[code])
+                except Exception:  # noqa: BLE001 — the twin may be malformed: it was still seen first
+                    pass
+                try:
+                    z = decode_attr_block(b, neg).get(code)
+                    rz = render_attr(z) if z is not None else {'json': 'absent', 'str': 'absent'}
+                    bz = bytes(z.pack_attribute(neg)) if z is not None else b''
+                except Exception as e:  # noqa: BLE001
+                    rz, bz = {'json': 'raised ' + err_name(e), 'str': ''}, b''
+                if rz['json'] != ry['json'] or rz['str'] != ry['str'] or (canonical and bz != b):
+                    fails.append(LawFail('decode-depends-on-a-twin-decoded-before', f'after {bytes(tb).hex()[:48]}: {rz["json"][:80]} | fresh: {ry["json"][:80]}', b))
+                    break
+            if fails:
+                break
+        reset_caches()
     if not fails and not first_elsewhere:
         # ... and the other order: another session decodes the bytes now, this one decodes them again
         try:
